@@ -166,6 +166,21 @@ PROPS['C19'].update({
     'level_note': 'unicode.IsDigit/IsLetter beyond ASCII are abstracted: every non-ASCII rune in the board field leads to an error in both Go and the model (argued in Lemmas/FenLemmas, exercised with Arabic-Indic / full-width / astral runes). UTF-8 decoding is Go s. Trusted: Coq kernel, harness (panics are caught by recover and reported as CRASH).',
 })
 
+PROPS['C05'].update({
+    'coq_targets': ['Properties/C05.vo', 'Impl/ImplBoard.vo'],
+    'obligation_files': ['Properties/C05.v', 'Lemmas/GameLemmas8.v', 'Impl/ImplBoard.v'],
+    'level': 'proof',
+    'level_text': 'Proof for every game played on a board from any legal start position, any set-up clock and move number and any key table: after each move, a draw condition of the specification game (current position occurred >= 3 times in the game, start included - five-fold from the fifth; half-move clock >= 100 counted on from set-up; insufficient material after a capture or under-promotion) implies the board reports Draw with the reason of the last applicable rule, and the board reports Draw only if some condition has held in the game; the repetition map counts nodes per hash, every node carries the scratch hash (C07), a potential argument shows no equal position lies beyond the clock window, the exact recount equals the specification occurrences; insufficient material popcount test = K v K / K+minor v K / two bishops on one square colour; adjudication = checkmate iff in check. Forked boards carry the same game (fork_game). The three repaired defects are refuted by computation. Model vs Go on operation scripts; Go vs the specification game after every push.',
+    'level_note': 'Set-up conditions are not checked by NewBoard (a clock of 100 or bare kings at set-up are not reported) - the property speaks of "after each move". The Draw flag is sticky along a line (PushMove inherits it) and cleared by PopMove. Trusted: Coq kernel, harness.',
+})
+PROPS['C10'].update({
+    'coq_targets': ['Properties/C10.vo', 'Impl/ImplBoard.vo'],
+    'obligation_files': ['Properties/C10.v', 'Impl/ImplBoard.v'],
+    'level': 'proof',
+    'level_text': 'Proof: for any sequence of ucinewgame / position commands in GUI form (tokens separated by single spaces, valid FEN or startpos, legal moves) the model driver never exits and the engine state refines the specification game built from the LAST position line alone - position, side, half-move clock, full-move number and the whole history chain used for repetition detection; a line extending the previous one at a token boundary has the same effect as setting it up from scratch (setup_extend), verbatim repetition and shortening included. The textual-prefix continuation test as found is refuted. The real UCI driver is run on such command sequences (synchronised by isready) and compared with the model and with the specification after every line.',
+    'level_note': 'GUI form is necessary (a bare `position` line followed by a real one exits: gui_form_needed - not valid UCI). `position fen` with fewer than six fields silently means startpos in driver and in setup alike (excluded by GUI form). strings.Split/Fields/HasPrefix are modelled. Trusted: Coq kernel, harness.',
+})
+
 # Every listed property is claimed; reasons would go here otherwise.
 NOT_APPLICABLE = [
     {'property_id': pid, 'reason': 'check not built yet in this session (work in progress; see DESIGN.md section 9)'}
